@@ -26,8 +26,12 @@ async def multi_session(rng: Rng, n_ops: int) -> MemSession:
     await s.declare("q0")
     ncons = rng.choice([2, 2, 3, 4])
     topics_pool = ["ta", "tb"]
+    t0 = CLOCK.us
+    cats = {}
     for c in range(ncons):
-        await s.start(c, "q0", "NORMAL", rng.choice([None, None, ["ta"], ["ta", "tb"]]))
+        # beside the normal consumers, now and then one that inspects the DELAYED category (it takes messages whatever their time)
+        cats[c] = "NORMAL" if c < 2 else rng.choice(["NORMAL", "NORMAL", "DELAYED"])
+        await s.start(c, "q0", cats[c], rng.choice([None, None, ["ta"], ["ta", "tb"]]))
     live = set(range(ncons))
     nid = 0
     for _ in range(n_ops):
@@ -38,8 +42,9 @@ async def multi_session(rng: Rng, n_ops: int) -> MemSession:
         if r < 0.30 or nid == 0:
             nid += 1
             pd = {"ts": CLOCK.us}
-            if rng.random() < 0.2:
-                pd["next"] = CLOCK.us + rng.choice([-1, 500_000])
+            if rng.random() < 0.3:
+                # (several messages scheduled for one and the same instant share a slot of the delayed table)
+                pd["next"] = rng.choice([CLOCK.us - 1, CLOCK.us + 500_000, t0 + 3600 * S, t0 + 3600 * S])
             await s.enqueue("q0", f"m{nid}", rng.choice(topics_pool), f"p{nid}", pd)
         elif r < 0.36:
             s.advance(rng.choice([0, 1000, 600_000]))
@@ -58,7 +63,7 @@ async def multi_session(rng: Rng, n_ops: int) -> MemSession:
             c = rng.choice(sorted(live))
             await s.finish(c)
             info = s.cinfo[c]
-            await s.start(c, "q0", "NORMAL", info["topics"] or None)
+            await s.start(c, "q0", cats[c], info["topics"] or None)
         else:
             s.advance(1)
     return s
